@@ -257,4 +257,3 @@ func cmdVerify(args []string) int {
 	}
 	return 0
 }
-
